@@ -299,21 +299,22 @@ class Verdict:
             log("KNOWN-FINDING: property=%s %s [%s, %d case(s) this run]" % (self.pid, what, k, n))
         rdir = os.path.join(VERIF, "replays", self.pid)
         nviol = len(self.violations)
-        seen = set()
+        seen = {}
+        shown = 0
         for i, (key, what, payload) in enumerate(self.violations):
-            if key in seen and i >= 20:
+            seen[key] = seen.get(key, 0) + 1
+            if seen[key] > 2 or shown >= 12:
                 continue
-            seen.add(key)
+            shown += 1
             os.makedirs(rdir, exist_ok=True)
             p = os.path.join(rdir, "seed%d-%s-%03d.json" % (self.seed, self.tier, i))
             with open(p, "w") as f:
                 json.dump({"property": self.pid, "key": key, "what": what, "seed": self.seed, "tier": self.tier,
                            "case": payload}, f, indent=1, default=str)
-            if i < 20:
-                log("VIOLATION property=%s replay=%s" % (self.pid, p))
-                log("  key=%s what=%s" % (key, what[:400]))
-        if nviol > 20:
-            log("  ... %d further violations (first 20 shown)" % (nviol - 20))
+            log("VIOLATION property=%s replay=%s" % (self.pid, p))
+            log("  key=%s what=%s" % (key, what[:400]))
+        if nviol > shown:
+            log("  ... %d violations in all, by key: %s" % (nviol, json.dumps(seen)))
         cov = {"states": max(self.states, 0), "transitions": max(self.transitions, 0),
                "traces_validated_against_impl": self.traces,
                "evaluations": self.evaluations, "distinct_nontrivial": len(self.distinct),
